@@ -51,7 +51,7 @@ func actTargets(r R) []sl.Sel {
 
 func actOp(r R, capture bool) *sl.Op {
 	if capture {
-		return &sl.Op{Name: "rx", Arg: Pick(r, []string{"^(v)([0-9]+)", "(?i)^(v)(\\d)", "^(k|K)(\\d)$", "^([a-z])"})}
+		return &sl.Op{Name: "rx", Arg: Pick(r, []string{"^(v)([0-9]+)", "(?i)^(v)(\\d)", "^(k|K)(\\d)$", "^([a-z])", "^(v|w)([0-9]+)?", "^(x)?(v)?"})}
 	}
 	switch r.IntN(5) {
 	case 0:
